@@ -11,8 +11,8 @@ from common import *
 import model, findings as F
 from props import base
 
-PROPS_MODULES = ["ShexerModel.Props.C07", "ShexerModel.Props.GenStrCorners", "ShexerModel.Props.GenStrLiteral", "ShexerModel.Props.GenStrUnprefix", "ShexerModel.Props.GenStrTtlScan", "ShexerModel.Props.GenStrTune2"]
-DEPS = ["S.remove_corners", "S.decide_literal_type"] + ["S." + x for x in ('ttl_remove_comments_if_needed', 'ttl_find_next_blank', 'ttl_count_prior_backslashes', 'ttl_find_next_unescaped_quotes', 'ttl_find_next_quoted_literal_ending', 'ttl_expand_prefixed_datatype_if_needed', 'ttl_parse_cornered_element', 'ttl_next_line_token', 'parse_literal', 'parse_unquoted_literal', 'tune_subj', 'tune_prop', 'tune_token')]
+PROPS_MODULES = ["ShexerModel.Props.C07", "ShexerModel.Props.GenStrCorners", "ShexerModel.Props.GenStrLiteral", "ShexerModel.Props.GenStrUnprefix", "ShexerModel.Props.GenStrTtlScan", "ShexerModel.Props.GenStrTune2", "ShexerModel.Props.GenStrTtlTok"]
+DEPS = ["S.remove_corners", "S.decide_literal_type"] + ["S." + x for x in ('ttl_remove_comments_if_needed', 'ttl_find_next_blank', 'ttl_count_prior_backslashes', 'ttl_find_next_unescaped_quotes', 'ttl_find_next_quoted_literal_ending', 'ttl_expand_prefixed_datatype_if_needed', 'ttl_parse_cornered_element', 'ttl_next_line_token', 'ttl_clean_line', 'ttl_is_num_literal', 'ttl_parse_elem', 'parse_literal', 'parse_unquoted_literal', 'tune_subj', 'tune_prop', 'tune_token')]
 replay = base.replay
 LANG_STRING = 'http://www.w3.org/1999/02/22-rdf-syntax-ns#langString'
 PFX = {'': 'http://empty.example.org/', 'e': 'http://short.example.com/', 'ex': 'http://example.org/', 'ext': 'http://ext.example.org/ns#', 'xsd': XSD,
@@ -386,7 +386,7 @@ def run(ctx):
             else:
                 viol.append({"what": "outside the dialect (%s): the reader neither raises nor yields the triples of the document" % name,
                              "doc": text, "got": r[1], "rdflib": ref})
-    base.fragment_s_tie(ctx, dis, stats, ['remove_corners', 'decide_literal_type', 'unprefixize_uri_mandatory', 'unprefixize_uri_if_possible', 'ttl_remove_comments_if_needed', 'ttl_find_next_blank', 'ttl_count_prior_backslashes', 'ttl_find_next_unescaped_quotes', 'ttl_find_next_quoted_literal_ending', 'ttl_expand_prefixed_datatype_if_needed', 'ttl_parse_cornered_element', 'ttl_next_line_token', 'parse_literal', 'parse_unquoted_literal', 'tune_subj', 'tune_prop', 'tune_token'])
+    base.fragment_s_tie(ctx, dis, stats, ['remove_corners', 'decide_literal_type', 'unprefixize_uri_mandatory', 'unprefixize_uri_if_possible', 'ttl_remove_comments_if_needed', 'ttl_find_next_blank', 'ttl_count_prior_backslashes', 'ttl_find_next_unescaped_quotes', 'ttl_find_next_quoted_literal_ending', 'ttl_expand_prefixed_datatype_if_needed', 'ttl_parse_cornered_element', 'ttl_next_line_token', 'ttl_clean_line', 'ttl_is_num_literal', 'ttl_parse_elem', 'parse_literal', 'parse_unquoted_literal', 'tune_subj', 'tune_prop', 'tune_token'])
     return base.std_result(ctx, [d[0] for d in docs], viol, dis, base.known_lines(kf, hit), stats, nontriv, [],
                            "documents rendered from abstract statement groups (';' and ',' abbreviations, 'a' vs rdf:type, prefixed / <absolute> / "
                            "<relative-to-@base> IRIs, blank nodes, literals with escapes and '#', ';', ',', '.' inside, language tags, datatypes as <IRI> / "
